@@ -31,7 +31,7 @@ type c16Decl struct {
 // functions and methods, then the fixed items in source order).
 func c16Package(r *rand.Rand, id string, size int) (*Prog, []c16Decl) {
 	big := size == 2
-	o := GenOpts{MaxStmts: 25, MaxDepth: 2, Funcs: 3, Strings: true, Structs: true, Containers: true}
+	o := GenOpts{MaxStmts: 25, MaxDepth: 2, Funcs: 3, Strings: true, Structs: true, Containers: true, Lib: true}
 	if big {
 		o.Funcs = 8
 	}
@@ -128,6 +128,18 @@ func c16Package(r *rand.Rand, id string, size int) (*Prog, []c16Decl) {
 		fn := fn
 		decls = append(decls, c16Decl{"hoist", pr(func(q *printer) { q.funcDecl(fn) })})
 	}
+	if size != 0 {
+		// declarations outside the generated program (their one line of output comes first, from the first initialiser): a
+		// method whose LOCAL struct type has the name of a package-level type that other methods and functions build
+		decls = append(decls,
+			c16Decl{"hoist", "type RawItem struct {\n\tid   int\n\tname string\n}\n"},
+			c16Decl{"hoist", "type RawStore struct {\n\tn int\n}\n"},
+			c16Decl{"hoist", "func (s *RawStore) Summary() int {\n\ttype RawItem struct {\n\t\tlo, hi int\n\t}\n\tit := &RawItem{lo: 1, hi: 2}\n\treturn it.lo + it.hi + s.n\n}\n"},
+			c16Decl{"hoist", "func (s *RawStore) NewItem() *RawItem {\n\treturn &RawItem{id: 5, name: \"x\"}\n}\n"},
+			c16Decl{"hoist", "func rawMk() *RawItem {\n\treturn &RawItem{id: 6, name: \"y\"}\n}\n"},
+			c16Decl{"hoist", "func rawCheck() int {\n\ts := &RawStore{}\n\tit := s.NewItem()\n\tfmt.Println(\"raw\", s.Summary(), it.id, it.name, rawMk().id, rawMk().name)\n\treturn 0\n}\n"},
+			c16Decl{"fixed", "var rawChecked = rawCheck()\n"})
+	}
 	for _, gs := range p.Globals {
 		gs := gs
 		gs.Global = true
@@ -196,6 +208,11 @@ func checkC16(c *Ctx) {
 			fatalf("package %s has %d behaviours", pk.p.ID, len(behs))
 		}
 		want := behs[0].Render()
+		for _, d := range pk.decls {
+			if strings.HasPrefix(d.text, "var rawChecked") {
+				want = "raw 3 5 x 6 y\n" + want
+			}
+		}
 		var kinds []string
 		for _, d := range pk.decls {
 			kinds = append(kinds, d.kind)
@@ -229,8 +246,22 @@ func checkC16(c *Ctx) {
 					sb.WriteString("\n")
 				}
 				hdr := "package main\n\n"
-				if strings.Contains(sb.String(), "fmt.") {
-					hdr += "import \"fmt\"\n\n"
+				// each file imports what it uses: one import as a single declaration, several as a group (so the
+				// files of one package have declarations that begin alike and differ further down)
+				var need []string
+				for _, pk := range []string{"fmt", "strconv", "strings"} {
+					if strings.Contains(sb.String(), pk+".") {
+						need = append(need, pk)
+					}
+				}
+				if len(need) == 1 {
+					hdr += "import \"" + need[0] + "\"\n\n"
+				} else if len(need) > 1 {
+					hdr += "import (\n"
+					for _, pk := range need {
+						hdr += "\t\"" + pk + "\"\n"
+					}
+					hdr += ")\n\n"
 				}
 				files["main/"+names[fi]] = hdr + sb.String()
 				fi++
